@@ -14,7 +14,7 @@ Inductive callid :=
 | KSetClosed | KSetClosing | KSetOpen | KSetOpening
 | KAppendExc | KStopConsuming | KRemoveTags | KClearInbound
 | KNextId | KStoreChannel | KChannelOpen | KTestOpen | KTestClosed
-| KRegisterWrite | KOther.
+| KRegisterWrite | KTagsInPlace | KTagsRebind | KOther.
 
 Inductive tok :=
 | TWith (l : lockid) | TEndWith
@@ -43,7 +43,8 @@ Definition callid_eqb (a b : callid) : bool :=
   | KAppendExc, KAppendExc | KStopConsuming, KStopConsuming | KRemoveTags, KRemoveTags
   | KClearInbound, KClearInbound | KNextId, KNextId | KStoreChannel, KStoreChannel
   | KChannelOpen, KChannelOpen | KTestOpen, KTestOpen | KTestClosed, KTestClosed
-  | KRegisterWrite, KRegisterWrite | KOther, KOther => true
+  | KRegisterWrite, KRegisterWrite | KTagsInPlace, KTagsInPlace | KTagsRebind, KTagsRebind
+  | KOther, KOther => true
   | _, _ => false
   end.
 
